@@ -32,6 +32,8 @@ def shards(tier, seed):
     out.append(("child_bb_decoders", dict(kind="decoders", count=60 if q else 600, _pyopt="bb")))
     out.append(("child_bb_der_fuzz", dict(kind="der_fuzz", count=1500 if q else 20000, _pyopt="bb")))
     out.append(("child_boundary_curves", dict(kind="boundary", which="curves", _pyopt="opt+hashseed")))
+    out.append(("child_dev_boundary_curves", dict(kind="boundary", which="curves", _pyopt="dev")))
+    out.append(("child_dev_decoders", dict(kind="decoders", count=40 if q else 300, _pyopt="dev+maxdigits")))
     out.append(("child_exh", dict(kind="exh", nmax=40 if q else 120, part=0, parts=1, _pyopt="opt")))
     out.append(("concurrent", dict(kind="concurrent", runs=150 if q else 2000)))
     out.append(("der_fuzz", dict(kind="der_fuzz", count=6000 if q else 120000)))
